@@ -45,6 +45,27 @@ def handle (ws : List String) : String :=
       match unhex hx >>= Sexp.parse with
       | some s => runComplement s
       | none => "err bad-sexp"
+  | ["compmon", hx, ht] =>
+      match unhex hx >>= Sexp.parse, unhex ht with
+      | some s, some t => runCompMon s t
+      | _, _ => "err bad-sexp"
+  | ["normfloat", hx] =>
+      match unhex hx with
+      | some t => "ok " ++ hex (String.ofList (normalizeFloat t.toList))
+      | none => "err bad-hex"
+  | ["spellclass", hx] =>
+      match unhex hx with
+      | some t => (match spellClass t.toList with | some c => "ok " ++ hex (String.ofList c) | none => "ok none")
+      | none => "err bad-hex"
+  | ["elements"] => "ok " ++ " ".intercalate elementSymbols
+  | "expand" :: expected :: toks =>
+      let exp := if expected == "-" then none else expected.toNat?
+      match expandChecked exp (toks.map classifyTok) with
+      | .ok (r, c) => s!"ok {c} " ++ " ".intercalate (r.map fun x => match x with | some v => toString v.toBits | none => "J")
+      | .error .index => "ok error index"
+      | .error .typeErr => "ok error type"
+      | .error .expected => "ok error expected"
+      | .error (.value m) => "ok error value " ++ hex m
   | ["boolmon", hx] =>
       match unhex hx >>= Sexp.parse with
       | some s => runBoolMon s
